@@ -73,7 +73,8 @@ func inspectCatalogModel(t reflect.Type) (catalogShape, []mapBodyField, error) {
 		}
 		parts := strings.Split(raw, ",")
 		head := parts[0]
-		if head == "" {
+		if head == "" || head == "-" {
+			// `hydraide:"-"` skips the field, as in encoding/json
 			continue
 		}
 		if head == tagValue {
